@@ -17,3 +17,9 @@ def regions_for(prop, harness):
     """[(finding id, region expression)] for the open findings of one harness."""
     return [(f["id"], f["region"]) for f in _load()
             if f.get("property") == prop and f.get("status") == "open" and f.get("harness") == harness]
+
+
+def regions_with_labels(prop, harness):
+    """[(finding id, region expression, labels or None)]"""
+    return [(f["id"], f["region"], f.get("labels")) for f in _load()
+            if f.get("property") == prop and f.get("status") == "open" and f.get("harness") == harness]
